@@ -225,7 +225,7 @@ func c10ChunkSaved(p *Prog, r *Report, rule string) {
 	bufField := ""
 	if st, ok := nt.Underlying().(*types.Struct); ok {
 		for i := 0; i < st.NumFields(); i++ {
-			if sl, ok := st.Field(i).Type().(*types.Slice); ok && types.Identical(sl.Elem(), types.Typ[types.Byte]) {
+			if sl, ok := st.Field(i).Type().Underlying().(*types.Slice); ok && types.Identical(sl.Elem(), types.Typ[types.Byte]) {
 				bufField = st.Field(i).Name()
 			}
 		}
@@ -457,7 +457,7 @@ func c14ReturnsAccumulated(p *Prog, r *Report, rule string) {
 		var list types.Object
 		res := fi.Sig().Results()
 		for i := 0; i < res.Len(); i++ {
-			if _, ok := res.At(i).Type().(*types.Slice); ok && res.At(i).Name() != "" {
+			if _, ok := res.At(i).Type().Underlying().(*types.Slice); ok && res.At(i).Name() != "" {
 				list = res.At(i)
 			}
 		}
@@ -2642,7 +2642,7 @@ func c19RejectsOnlyShortRecords(p *Prog, r *Report, rule string) {
 	var dataObj types.Object
 	for _, o := range paramObjs(fi) {
 		if o != nil {
-			if sl, ok := o.Type().(*types.Slice); ok && types.Identical(sl.Elem(), types.Typ[types.Byte]) {
+			if sl, ok := o.Type().Underlying().(*types.Slice); ok && types.Identical(sl.Elem(), types.Typ[types.Byte]) {
 				dataObj = o
 			}
 		}
